@@ -515,6 +515,26 @@ def trace (w : World) : List Step → List (Res × List DelEvent × World)
   | [] => []
   | s :: ss => step w s :: trace (step w s).2.2 ss
 
+/-! ### a disruption pass of the controller over commands computed by a method
+
+`Controller.disrupt` hands every command the method returned to `Queue.StartCommand` (after the candidate filter of
+`GetCandidates`).  Which commands a method computes is the method's business; for the orchestration protocol a pass
+is the run of `start` steps of the commands it computed.  `PStep.pass` stands for one pass; `expand` replaces the
+`j`-th pass by the starts of the `ns[j]` commands it computed, numbered consecutively in start order. -/
+
+def passSteps (first n : Nat) : List Step := (List.range n).map (fun j => Step.start (first + j) true)
+
+inductive PStep
+  | pass
+  | plain (s : Step)
+deriving DecidableEq, Repr
+
+def expand : Nat → List Nat → List PStep → List Step
+  | _, _, [] => []
+  | next, ns, .plain s :: t => s :: expand next ns t
+  | next, [], .pass :: t => expand next [] t
+  | next, n :: ns, .pass :: t => passSteps next n ++ expand (next + n) ns t
+
 def initWorld (ncands : Nat) (cmds : List (List Nat × Nat)) (faults : List Fault) (missing : List Nat)
     (retrySteps : Nat) (mode : TimeoutMode) : World :=
   { cands := List.replicate ncands {}
